@@ -78,3 +78,16 @@ class Run:
 
 def exit_kind(v):
     return ('raise ' + v.exc.split(':')[0]) if isinstance(v, Raise) else 'return'
+
+
+def cipher_facts(run):
+    """external facts about cryptography's cipher classes, keyed on the concrete SymmetricKeyAlgorithm value:
+    block size in bits (RFC 4880 9.2: 64 for IDEA/3DES/CAST5/Blowfish, 128 for AES/Twofish/Camellia)"""
+    def block_size(ex, st, o, a):
+        c = o.conc()
+        if c is None:
+            raise E.ToolLimit('block size of a symbolic cipher')
+        return [(st, VInt(64 if c in (1, 2, 3, 4) else 128))]
+    run.hook('pgpy.constants.SymmetricKeyAlgorithm', 'block_size', block_size)
+    run.hook('pgpy.constants.SymmetricKeyAlgorithm', 'is_supported', const(VBool(True)))
+    run.hook('pgpy.constants.SymmetricKeyAlgorithm', 'is_insecure', lambda ex, st, o, a: [(st, VBool(o.conc() == 1))])
